@@ -300,12 +300,18 @@ def main():
                     data = open(hp, "rb").read()
                     for i in range(0, len(data) - 7, 8):
                         hashes.add(data[i:i + 8])
-                if st.get("failed"):
+                if st.get("failed") and ph.get("informational"):
+                    # e.g. the -DOF_DEBUG build variant: the suite and the properties are about the Release
+                    # configuration, so what this phase finds is recorded, not reported
+                    notes.append("informational phase %d (%s): %s :: %s" % (ph_i, ph.get("engine", ""), st.get("signature", ""), st.get("message", "")[:200]))
+                elif st.get("failed"):
                     handle_failure(spec, binpath, bdir, tier, st.get("signature", ""), st.get("message", ""), fo, open_sigs, violations, known_lines, notes)
             else:
                 # process death without a report: the current-case file holds the history that killed it
                 errtxt = open(os.path.join(rundir, "p%d-w%d.err" % (ph_i, w))).read()
-                if os.path.exists(cur) and os.path.getsize(cur) > 0:
+                if ph.get("informational"):
+                    notes.append("informational phase %d (%s): worker %d died: %s" % (ph_i, ph.get("engine", ""), w, errtxt[-300:]))
+                elif os.path.exists(cur) and os.path.getsize(cur) > 0:
                     r = handle_crash(spec, binpath, bdir, tier, cur, errtxt, open_sigs, violations, known_lines, notes)
                     if r == "sanitizer_stop":
                         sanitizer_stops += 1
